@@ -36,6 +36,7 @@ REPRO = {
     "D-52": ("> \u201d\n> 1) x\n", dict(width=88, semantic=False, cleanups=False, smartquotes=False, ellipses=False, list_spacing="loose")),
     "D-27": ("> (...)\n> a...b...c ... ...\"...\" ...and ...anda...b...ca...b...c\n", dict(width=30, semantic=True, cleanups=False, smartquotes=False, ellipses=True, list_spacing="preserve")),
     "D-83": ("text {% t %} | a b\n", dict(width=12, semantic=False, cleanups=False, smartquotes=False, ellipses=False, list_spacing="preserve")),
+    "D-98": ("# **____*b*__ a__**\n", dict(width=88, semantic=False, cleanups=True, smartquotes=False, ellipses=False, list_spacing="preserve")),
     "D-25": ("- aaa bbb {% /x %} ccc ddd\n", dict(width=10, semantic=False, cleanups=False, smartquotes=False, ellipses=False, list_spacing="preserve")),
 }
 
@@ -137,7 +138,7 @@ def run(chk: Check) -> None:
             nb += 1
             d1 = None if c01.structure_preserved(c["doc"], c["opts"]["width"], c["opts"]["semantic"]) else "structure changed by the plain formatting pass"
             chk.fail("property", {"doc": c["doc"], "opts": c["opts"], "pass1": o1, "pass2": o2, "c01_diff": d1, "parser_input": c.get("parser_input"),
-                                  "_diff": bool(c.get("_diff") or s.get("_diff"))},
+                                  "repro": c.get("repro"), "_diff": bool(c.get("_diff") or s.get("_diff"))},
                      "not idempotent: " + first_diff(o1, o2), classify)
     chk.port_stat("spec: format(format(x)) == format(x) (Markdown)", len(second), nb)
     # ---- plaintext mode ----
